@@ -189,3 +189,37 @@ c("t_store_cast", params={"n": "int", "x": "real"}, returns="arr1[int]", require
 c("f_store_cast", params={"n": "int", "x": "real"}, returns="arr1[int]", requires=["n >= 1"],
   ensures=["result[0] == x"])
 c("t_dict_get", params={"k": "str"}, returns="int", ensures=["result >= 0 and result <= 2"])
+
+# ---- row views, functional argsort, generator draws with a size, sampling without replacement, betabinom
+from pyvc.api import loop_invariant  # noqa: E402
+
+_RV = ["b.shape[0] == a.shape[0] and b.shape[1] == a.shape[1]",
+       "forall(range(r, a.shape[0]), lambda q: forall(range(0, a.shape[1]), lambda c: b[q, c] == a[q, c]))",
+       "forall(range(0, r), lambda q: forall(range(1, a.shape[1]), lambda c: b[q, c] == a[q, c]))"]
+c("t_row_view", params=A2, returns="arr2[real]", requires=["a.shape[1] >= 1"],
+  ensures=["result.shape[0] == a.shape[0] and result.shape[1] == a.shape[1]",
+           "forall(range(0, a.shape[0]), lambda q: result[q, 0] == ite(a[q, 0] + 1 < 0, 0, ite(a[q, 0] + 1 > 10, 10, a[q, 0] + 1)))",
+           "forall(range(0, a.shape[0]), lambda q: forall(range(1, a.shape[1]), lambda c: result[q, c] == a[q, c]))"])
+loop_invariant(f"{P}::t_row_view", 1, over="b", var="r",
+               inv=_RV + ["forall(range(0, r), lambda q: b[q, 0] == ite(a[q, 0] + 1 < 0, 0, ite(a[q, 0] + 1 > 10, 10, a[q, 0] + 1)))"])
+# FALSE: "the writes through the row are lost"
+c("f_row_view", params=A2, returns="arr2[real]", requires=["a.shape[1] >= 1 and a.shape[0] >= 1"],
+  ensures=["forall(range(0, a.shape[0]), lambda q: result[q, 0] == a[q, 0])"])
+loop_invariant(f"{P}::f_row_view", 1, over="b", var="r", inv=_RV)
+c("t_argsort_fn", params=A1, returns="arr1[int]",
+  ensures=["len(result) == len(a)", "forall(range(0, len(a)), lambda i: result[i] == 0)"])
+c("t_rng_integers_size", params={"seed": "int", "n": "int"}, returns="arr1[int]", requires=["n >= 0 and seed >= 0"],
+  ensures=["len(result) == n", "forall(range(0, n), lambda i: 1 <= result[i] and result[i] < 5)"])
+c("f_rng_integers_size", params={"seed": "int", "n": "int"}, returns="arr1[int]", requires=["n >= 1 and seed >= 0"],
+  ensures=["forall(range(0, n), lambda i: 1 <= result[i] and result[i] < 4)"])
+c("t_choice_norepl", params={"seed": "int", "n": "int", "k": "int"}, returns="arr1[int]",
+  requires=["seed >= 0 and n >= 1 and 0 <= k and k <= n"],
+  ensures=["len(result) == k", "forall(range(0, k), lambda i: 0 <= result[i] and result[i] < n)",
+           "forall(range(0, k), lambda i: forall(range(0, k), lambda j: implies(i < j, result[i] != result[j])))"])
+c("f_choice_repl", params={"seed": "int", "n": "int", "k": "int"}, returns="arr1[int]",
+  requires=["seed >= 0 and n >= 1 and 0 <= k and k <= n"],
+  ensures=["forall(range(0, k), lambda i: forall(range(0, k), lambda j: implies(i < j, result[i] != result[j])))"])
+c("t_betabinom", params={"seed": "int", "n": "int"}, returns="arr1[int]", requires=["seed >= 0 and n >= 0"],
+  ensures=["len(result) == 1", "1 <= result[0] and result[0] <= n + 1"])
+c("f_betabinom", params={"seed": "int", "n": "int"}, returns="arr1[int]", requires=["seed >= 0 and n >= 1"],
+  ensures=["result[0] <= n"])
